@@ -55,7 +55,29 @@ func sigManifestDesc(k int) ocispec.Descriptor {
 	return ocispec.Descriptor{MediaType: ocispec.MediaTypeImageManifest, Digest: digestOf(digest.SHA256, []byte(fmt.Sprintf("sig-manifest-%d", k))), Size: int64(100 + k)}
 }
 
-func sigIndex(d ocispec.Descriptor) int { return int(d.Size - 100) }
+// canon: the signature a listing position stands for ("repeat" = the previous one once more)
+func canon(listing []string, k int) int {
+	for k > 1 && listing[k-1] == "repeat" {
+		k--
+	}
+	return k
+}
+
+// listedDesc: the descriptor listed at position k - for a repeat the very same manifest descriptor as before; the position
+// travels along in an annotation (which is not part of a descriptor's identity) so that the fetch log can tell positions apart
+func listedDesc(listing []string, k int) ocispec.Descriptor {
+	d := sigManifestDesc(canon(listing, k))
+	d.Annotations = map[string]string{"verif.position": fmt.Sprint(k)}
+	return d
+}
+
+func sigIndex(d ocispec.Descriptor) int {
+	var k int
+	if _, err := fmt.Sscan(d.Annotations["verif.position"], &k); err == nil {
+		return k
+	}
+	return int(d.Size - 100)
+}
 
 func (r *loopRepo) Resolve(ctx context.Context, reference string) (ocispec.Descriptor, error) {
 	r.mu.Lock()
@@ -76,7 +98,7 @@ func (r *loopRepo) ListSignatures(ctx context.Context, desc ocispec.Descriptor, 
 		var page []ocispec.Descriptor
 		for i := 0; i < size; i++ {
 			k++
-			page = append(page, sigManifestDesc(k))
+			page = append(page, listedDesc(r.in.Listing, k))
 		}
 		if err := fn(page); err != nil {
 			return err
@@ -96,11 +118,12 @@ func (r *loopRepo) FetchSignatureBlob(ctx context.Context, desc ocispec.Descript
 	if k < 1 || k > len(r.in.Listing) {
 		return nil, ocispec.Descriptor{}, fmt.Errorf("mock: unknown signature %d", k)
 	}
-	if r.in.Listing[k-1] == "unfetchable" {
+	ck := canon(r.in.Listing, k)
+	if r.in.Listing[ck-1] == "unfetchable" {
 		return nil, ocispec.Descriptor{}, errors.New("mock: blob unavailable")
 	}
-	blob := []byte(fmt.Sprintf("signature-envelope-%d", k))
-	return blob, ocispec.Descriptor{MediaType: loopSigMediaType(k), Digest: digestOf(digest.SHA256, blob), Size: int64(len(blob))}, nil
+	blob := []byte(fmt.Sprintf("signature-envelope-%d", ck))
+	return blob, ocispec.Descriptor{MediaType: loopSigMediaType(ck), Digest: digestOf(digest.SHA256, blob), Size: int64(len(blob))}, nil
 }
 
 // the signatures of one artifact are of mixed envelope formats: each must reach the verifier with its own media type
